@@ -418,7 +418,13 @@ pub fn run(ctx: &Ctx) -> i32 {
             was.push(vec![0.61, 0.7, 0.64]);
             was.push(vec![1.2, 0.66, 0.9]);
         }
+        if ne == 3 {
+            for k in 0..3 {
+                was.push((0..3).map(|e| if e == k { 2f64.powi(-60) } else { 1.0 }).collect());
+            }
+        }
         if ne == 2 {
+            was.push(vec![2f64.powi(-60), 1.0]);
             was.push(vec![0.61, 0.7]);
             was.push(vec![0.66, 1.2]);
         }
